@@ -321,6 +321,62 @@ def encCellsGeneral : List (Bool × Cell) → Except SrcErr Bytes
     | .error e, _ => .error e
     | _, .error e => .error e
 
+/-! ## whole sequences: rows of cells (IterData) and structured arrays (numpy-backed sequences) -/
+
+/-- `_sequencetype` on a source whose records are given as cells (the flag is the byte order of a cell that is a 0-d
+    array; it matters on the general path only): the flat path when no column is a Byte, else the general path; per
+    record START, after the loop END.  The column types are those the DDS declares. -/
+def encRowsCells (tys : List Ty) : List (List (Bool × Cell)) → Except SrcErr Bytes
+  | [] => .ok Gen.END_OF_SEQUENCE
+  | r :: rs =>
+    let rec1 := if flatCols (tys.map fun ty => .base ty []) then encCellsFlat tys (r.map (·.2)) else encCellsGeneral r
+    match rec1, encRowsCells tys rs with
+    | .ok x, .ok y => .ok (Gen.START_OF_SEQUENCE ++ x ++ y)
+    | .error e, _ => .error e
+    | _, .error e => .error e
+
+/-- the values the rows of cells hold -/
+def rowsVals? : List (List (Bool × Cell)) → Option (List (List Val))
+  | [] => some []
+  | r :: rs =>
+    match cellVals? (r.map (·.2)), rowsVals? rs with
+    | some v, some vs => some (v :: vs)
+    | _, _ => none
+
+/-- what iterating a structured array delivers for one field of one record, after `decode_np_strings`
+    (`SequenceType.iterdata`): a numpy scalar of the field's dtype, a `numpy.str_`, or — for an `S` field — the `str`
+    the bytes decode to (UTF-8; modelled on ASCII bytes, where it is the identity on code points) -/
+def cellOfElem (c : NChar) : Elem → Option Cell
+  | .num v => some (.num c v)
+  | .ustr cps => some (.ustr cps)
+  | .bstr b => if b.all (fun x => x.toNat < 128) then some (.ustr (b.map fun x => x.toNat)) else none
+
+/-- record `i` of a structured array given by its fields: each field is a 1-d strided view of the records
+    (`arr[name]`: the field's dtype char and byte order, offset of the field in the first record, stride = record size) -/
+def recordCells : List NpArr → Nat → Option (List (Bool × Cell))
+  | [], _ => some []
+  | a :: as, i =>
+    match a.strides with
+    | s :: _ =>
+      match cellOfElem a.char (readElem a ((a.offset : Int) + (i : Int) * s)), recordCells as i with
+      | some c, some cs => some ((false, c) :: cs)
+      | _, _ => none
+    | [] => none
+
+/-- the records `0 … n-1` -/
+def recordsOf (fields : List NpArr) : Nat → Option (List (List (Bool × Cell)))
+  | 0 => some []
+  | n + 1 =>
+    match recordsOf fields n, recordCells fields n with
+    | some rs, some r => some (rs ++ [r])
+    | _, _ => none
+
+/-- `_sequencetype` on a numpy-backed sequence of `n` records -/
+def encSeqFields (tys : List Ty) (fields : List NpArr) (n : Nat) : Except SrcErr Bytes :=
+  match recordsOf fields n with
+  | some rows => encRowsCells tys rows
+  | none => .error .unicode
+
 /-! ## a dataset whose leaves are held as arrays -/
 
 /-- a served variable: a BaseType holding an array, a container of such, or a member described at value level
